@@ -39,9 +39,13 @@ FUNCS = {"Sin", "Cos", "Exp"}
 COPS = {"==", "<=", ">=", "/=", "<", ">"}
 
 
-def tokenize(text):
+def tokenize(text, glued=None):
+    """-> list of (kind, value).  If `glued` is a list, it receives one bool per token: True when the token
+    follows the previous one without any white space (needed for signs, which the grammar only knows as part
+    of an ARITHM_ATOM terminal)."""
     toks = []
     i = 0
+    sep = True
     while i < len(text):
         m = _TOK.match(text, i)
         if not m:
@@ -49,9 +53,15 @@ def tokenize(text):
         i = m.end()
         k = m.lastgroup
         if k in ("ws", "comment"):
+            sep = True
             continue
         toks.append((k, m.group(k) if k != "nl" else "\n"))
+        if glued is not None:
+            glued.append(not sep)
+        sep = k == "nl"
     toks.append(("eof", ""))
+    if glued is not None:
+        glued.append(False)
     return toks
 
 
@@ -59,8 +69,11 @@ _ARITH_NAME = re.compile(r"^[a-z0-9_I]+$")
 
 
 class RefParser:
+    _prev_was_sign = False
+
     def __init__(self, text):
-        self.toks = tokenize(text)
+        self.glued = []
+        self.toks = tokenize(text, self.glued)
         self.i = 0
 
     # -- token helpers ----------------------------------------------------------------------------
@@ -254,8 +267,26 @@ class RefParser:
         """Collect the maximal run of arithmetic tokens and evaluate it with Python precedence."""
         depth = 0
         parts = []
+        operand_expected = True
         while True:
             k, v = self.peek()
+            if k == "op" and v in ("+", "-") and operand_expected:
+                # a sign exists only as the first character of an ARITHM_ATOM terminal: it must be glued to a number / name
+                nk, nv = self.peek(1)
+                j = min(self.i + 1, len(self.toks) - 1)
+                if nk not in ("num", "name") or not self.glued[j] or (parts and parts[-1] in ("+", "-") and self._prev_was_sign):
+                    raise RefParseError("sign that is not part of an atom")
+                self._prev_was_sign = True
+                parts.append(v)
+                self.take()
+                continue
+            self._prev_was_sign = False
+            if k in ("num", "name") and not (k == "name" and (v in KEYWORDS or not _ARITH_NAME.match(v))):
+                operand_expected = False
+            elif k == "op" and v in ("+", "-", "*", "/", "**", "("):
+                operand_expected = True
+            elif k == "op" and v == ")":
+                operand_expected = False
             if k == "num":
                 parts.append(v)
             elif k == "name":
